@@ -523,6 +523,7 @@ fn drive_api<A: Api>(scn: &ReadScn, cfg: &Cfg, targets: &SeekTargets) -> RunLog 
     let mut ctx = MonCtx::new(&scn.mon, scn.mon.iter_seed ^ 0x5151);
     let no_mon = Monitors::default();
     let mut quiet = MonCtx::new(&no_mon, 0);
+    let mut lifted = false;
 
     for op in &scn.ops {
         if reader.is_none() {
@@ -533,7 +534,8 @@ fn drive_api<A: Api>(scn: &ReadScn, cfg: &Cfg, targets: &SeekTargets) -> RunLog 
         let mut written_slot: Option<usize> = None;
         let mut seek_target: Option<(u64, u64)> = None;
         let mut restarted: Option<(usize, u64, u64)> = None;
-        let out: Out = match op {
+        let out: Out = loop {
+          let o: Out = match op {
             Op::Restart(j) => match targets.get(*j).copied().flatten() {
                 Some((line, byte)) => {
                     drop(reader.take());
@@ -685,6 +687,16 @@ fn drive_api<A: Api>(scn: &ReadScn, cfg: &Cfg, targets: &SeekTargets) -> RunLog 
                     Err(p) => classify_panic(p),
                 }
             }
+          };
+          if let (Out::Err(ErrObs::BufferLimit, _), Some(spec), false) = (&o, &cfg.lift, lifted) {
+              if matches!(op, Op::Next | Op::OwnedNext | Op::ReadSet(_) | Op::ReadSetExact(_, _)) && reader.is_some() {
+                  lifted = true;
+                  let r = reader.take().unwrap();
+                  reader = Some(A::set_policy(r, SimPolicy::new(spec.clone(), seam.clone())));
+                  continue;
+              }
+          }
+          break o;
         };
         let aborted = matches!(out, Out::Panic(_) | Out::Hang(_));
         // position (pure observation)
